@@ -17,7 +17,7 @@ BASES = [
     dict(D=1, target="abs", box="log", noise="auto", sigma=0.2, options=dict(max_fun_evals=40, noise_final_samples=2)),
     dict(D=2, target="sphere", box="sym", noise="declared", sigma=0.3, cons="ball", options=dict(max_fun_evals=40, noise_final_samples=1)),
 ]
-KINDS_ALL = ["raise", "raise_key", "nan", "inf", "ninf", "complex", "vector", "none", "complex0", "npcomplex", "npcomplex0", "npnan", "vlist"]
+KINDS_ALL = ["raise", "raise_key", "raise_stop", "nan", "inf", "ninf", "complex", "vector", "none", "complex0", "npcomplex", "npcomplex0", "npnan", "vlist"]
 KINDS_HE = ["notpair", "sd_zero", "sd_neg", "sd_nan", "sd_inf", "sd_none", "sd_complex0"]
 
 
@@ -32,7 +32,7 @@ def fault_plan(ctx):
             ks = list(range(1, budget + 1))
         kinds = KINDS_ALL + (KINDS_HE if b["noise"] == "specified" else [])
         nfs = b["options"].get("noise_final_samples", 0) if b["noise"] != "det" else 0
-        special = {1, 2, 3, budget - nfs + 1, budget}     # first call, noise test / first design point, first and last final sample
+        special = {1, 2, 3, 4, budget - nfs + 1, budget - nfs + 2, budget}     # first call, noise test / first design point, first and last final sample
         for j, k in enumerate(ks):
             if k in special:
                 kk = kinds                                  # calls that take a special path (not recorded / first): every fault kind
